@@ -425,6 +425,13 @@ const handlers = {
       const out = []
       const at = (d, path) => path.reduce((x, k) => (x == null ? undefined : x[k]), d)
       const walk = (n, path) => {
+        // the exact `index.ts` splice shape (no extra marks: only generated for arrays read through wx:for alone) is
+        // handed over as the splice change it stands for
+        if (n && typeof n === 'object' && Array.isArray(n.$splice) && !(n.$marks || []).length && !n.$length && path.length && Array.isArray(at(next, path))) {
+          const [start, del, ins] = n.$splice
+          out.push([path, at(next, path).slice(start, start + ins), start, del])
+          return
+        }
         if (n === true || n === 'T' || (n && typeof n === 'object' && Array.isArray(n.$splice)) || typeof n !== 'object' || n === null) {
           if (n === null || n === undefined) return
           if (path.length === 0) {
@@ -463,7 +470,7 @@ const handlers = {
       for (const k of Object.keys(datas[i])) live[k] = datas[i][k]
       const viaMap = changes.length === 1 && changes[0][0].length === 1 && req.viaEngine === 1 && engInst.bindingMapGen && !!engInst.bindingMapGen[changes[0][0][0]]
       engInst.updateValues(live, changes)
-      return { n: changes.length, viaMap }
+      return { n: changes.length, viaMap, splices: changes.filter((c) => c[3] !== undefined).length }
     }
     for (let i = 1; i < datas.length; i += 1) {
       const U = reviveTree(req.trees[i - 1])
